@@ -347,6 +347,54 @@ class SlotImpl(FleetImpl):
         return BufImpl.dispatch(self, op)
 
 
+class CBeltImpl(FleetImpl):
+    """Continuous ConveyorBelt (edges/continuous_conveyor.py) with its BeltStore; event-by-event kernel control.
+    cap, p1 (ticks of item_length/speed), accumulating flag.  item_length = 1, conveyor_length = cap, speed = 8/p1."""
+    def __init__(self, cap, p1, accumulating=1):
+        ImplBase.__init__(self)
+        from factorysimpy.edges.continuous_conveyor import ConveyorBelt
+        self.family, self.mode = "cbelt", "FIFO"
+        self.next_delay = 0
+        cap, p1 = int(cap), int(p1)
+        assert p1 in (1, 2, 4, 8)
+        self.edge = ConveyorBelt(self.env, "CB", conveyor_length=cap, speed=8.0 / p1, item_length=1, accumulating=1 if accumulating else 0)
+        assert self.edge.capacity == cap
+        self.edge.src_node = _DummyNode("src"); self.edge.dest_node = _DummyNode("dst")
+        self.store = self.edge.belt
+        self.api = self.edge
+        self.edge.update_final_buffer_avg_content = self.edge.update_final_conveyor_avg_content
+        self._seen_ready = set()
+        self.env.step()          # Initialize of ConveyorBelt.behaviour: it parks on item_arrival_event
+
+    def item(self, hid, kind=0):
+        it = ImplBase.item(self, hid, kind)
+        it.length = 1
+        return it
+
+    def urgent_pending(self):
+        c = sorted((t, p, e) for (t, p, e, evt) in self.env._queue if not self.transparent((t, p, e, evt)))
+        return bool(c) and c[0][0] == self.env.now and c[0][1] == 0
+
+    def dispatch(self, op):
+        if op[0] == "stat":
+            now = f2t(self.env.now)
+            n = len(self.store.items) + len(self.store.ready_items)
+            return f"stat {float(self.edge.stats['time_averaged_num_of_items_in_conveyor'])!r} {n} {now}"
+        if op[0] == "probe":
+            if op[1] == "occ": return f"probe {self.edge.occupancy()}"
+            if op[1] == "ready": return "probe " + " ".join(str(x.hid) for x in self.edge.ready_items())
+            if op[1] == "mode": return f"probe {self.edge.state} {self.store.noaccumulation_mode_on}"
+            if op[1] == "pat":
+                try: return "probe " + self.store._get_belt_pattern()[0]
+                except Exception: return "probe err"
+            return "probe skip"      # can_put / can_get raise AttributeError (defect D6); not part of the model
+        if op[0] == "cp":
+            return self.fmt(self.call(None, self.store.reserve_put_cancel, self.tok(op[1])), "ok")
+        if op[0] == "cg":
+            return self.fmt(self.call(None, self.store.reserve_get_cancel, self.tok(op[1])), "ok")
+        return BufImpl.dispatch(self, op)
+
+
 class PrqImpl:
     """PriorityReqStore: the harness is the only client; requests are SimPy events."""
     def __init__(self, cap):
@@ -408,6 +456,8 @@ def make_impl(header):
         return PrqImpl(w[2])
     if w[1] == "fleet":
         return FleetImpl(w[2], w[3], w[4])
+    if w[1] == "cbelt":
+        return CBeltImpl(w[2], w[3], accumulating=(w[4] != "0"))
     if w[1] == "slot":
         return SlotImpl(w[2], w[3], accumulating=(len(w) < 5 or w[4] != "0"))
     raise ValueError(header)
